@@ -340,9 +340,54 @@ def rule_h7(F):
     return r
 
 
+def rule_h8(F):
+    """Every closure pointer that is baked into machine code is kept alive by the module: in codegen's loop over the runtime
+    functions, no iteration records a (pointer, trampoline) pair in `runtime_functions` without having pushed the owning Arc into
+    `registered_fns` on the way (a de-duplication by trampoline, say, drops the captured state of all but one closure of a type)."""
+    r = RuleResult("C11.H8", "codegen keeps every registered closure alive whose pointer it bakes into the code (push on every path to the insert)", floor=1)
+    cb = F.body("codegen::codegen")
+    if cb is None or not cb.mir:
+        r.missing("codegen::codegen")
+        return r
+    defs = mir.Defs(cb)
+
+    def on_field(t, field):
+        return bool(t["args"]) and mir.is_place_op(t["args"][0]) and field in mir.origin_key(cb, defs, t["args"][0][1])
+    pushes = [bi for bi, t in mir.calls(cb) if hir.last(mir.callee_def(t)) == "push" and on_field(t, "registered_fns")]
+    inserts = [bi for bi, t in mir.calls(cb) if hir.last(mir.callee_def(t)) == "insert" and on_field(t, "runtime_functions")]
+    if not pushes or not inserts:
+        r.missing("registered_fns.push (%d) / runtime_functions.insert (%d) in codegen" % (len(pushes), len(inserts)))
+        return r
+    loops = mir.natural_loops(cb)
+    for ins in inserts:
+        encl = [(h, nodes) for h, nodes in loops if ins in nodes]
+        if not encl:
+            r.missing("loop around runtime_functions.insert")
+            continue
+        h, nodes = min(encl, key=lambda x: len(x[1]))
+        seen, work, skip = set(), [h], False
+        while work:
+            x = work.pop()
+            if x in seen or x in pushes:
+                continue
+            seen.add(x)
+            if x == ins:
+                skip = True
+                break
+            for sx in mir.succs(cb.blocks[x]):
+                if sx in nodes and sx not in seen:
+                    work.append(sx)
+        r.inst("runtime_functions.insert #%d" % ins, {"line": cb.blocks[ins]["term"]["line"], "reachable_without_keeping_the_closure_alive": skip})
+        if skip:
+            r.bad(cb.path, "closure pointer recorded without keep-alive", relfile(cb.file), cb.blocks[ins]["term"]["line"],
+                  "an iteration of the loop over the runtime functions can record the closure's raw pointer for the generated code without pushing its Arc into registered_fns: "
+                  "that closure (and what it captures) is freed with the Runtime while handles can still call into it")
+    return r
+
+
 def rules(ctx):
     F = ctx["F"]
-    return [rule_h1(F), rule_h2(F), rule_h3(F), rule_h4(F), rule_h5(F), rule_h7(F)]
+    return [rule_h1(F), rule_h2(F), rule_h3(F), rule_h4(F), rule_h5(F), rule_h7(F), rule_h8(F)]
 
 
 def thorough_rules(ctx):
